@@ -163,8 +163,8 @@ pub fn crumb_take() -> Option<&'static str> {
 pub fn last_panic_take() -> Option<String> {
     LAST_PANIC.with(|p| p.borrow_mut().take())
 }
-pub fn set_quiet(q: bool) {
-    QUIET.with(|c| c.set(q));
+pub fn set_quiet(q: bool) -> bool {
+    QUIET.with(|c| c.replace(q))
 }
 pub fn install_panic_hook() {
     let default = std::panic::take_hook();
@@ -177,7 +177,13 @@ pub fn install_panic_hook() {
             "<non-string panic payload>".to_string()
         };
         let loc = info.location().map(|l| format!("{}:{}", l.file(), l.line())).unwrap_or_default();
-        LAST_PANIC.with(|p| *p.borrow_mut() = Some(format!("{} at {}", msg, loc)));
+        // keep the first message: a scheduler that re-raises a task's panic must not overwrite it
+        LAST_PANIC.with(|p| {
+            let mut g = p.borrow_mut();
+            if g.is_none() {
+                *g = Some(format!("{} at {}", msg, loc));
+            }
+        });
         if !QUIET.with(|c| c.get()) {
             default(info);
         }
